@@ -68,6 +68,8 @@ package main
 import (
 	"bufio"
 	"bytes"
+	"compress/gzip"
+	"context"
 	"crypto/sha256"
 	"encoding/hex"
 	"encoding/json"
@@ -279,9 +281,72 @@ func (s *scriptReader) record(d []byte, st, e int) (int, error) {
 			s.rec[len(s.rec)-1].d = nil
 			panic(&injErr{e})
 		}
+		if v, ok := errValues[e]; ok {
+			return len(d), v.err // a well-known error VALUE, not the harness's own type
+		}
 		return len(d), &injErr{e}
 	}
 	return len(d), nil
+}
+
+// Error VALUES a failing input may return (codes 200..): what truncated gzip /
+// http / tar streams, closed pipes, deadlines and cancelled contexts produce,
+// and errors that merely look like end-of-stream.  Whatever the value, a read
+// error that is not the bare io.EOF means the input FAILED.
+type eofLike struct{}
+
+func (eofLike) Error() string        { return "looks like the end" }
+func (eofLike) Is(target error) bool { return target == io.EOF }
+
+type errValue struct {
+	name string
+	err  error
+}
+
+var errValues = map[int]errValue{
+	200: {"io.ErrUnexpectedEOF", io.ErrUnexpectedEOF},
+	201: {"io.ErrClosedPipe", io.ErrClosedPipe},
+	202: {"io.ErrShortBuffer", io.ErrShortBuffer},
+	203: {"io.ErrNoProgress", io.ErrNoProgress},
+	204: {"os.ErrDeadlineExceeded", os.ErrDeadlineExceeded},
+	205: {"context.Canceled", context.Canceled},
+	206: {"fmt.Errorf(\"%w\", io.EOF)", fmt.Errorf("read body: %w", io.EOF)},
+	207: {"an error whose Is(io.EOF) is true", eofLike{}},
+	208: {"io.ErrShortWrite", io.ErrShortWrite},
+	209: {"fmt.Errorf(\"%w\", io.ErrUnexpectedEOF)", fmt.Errorf("gzip: %w", io.ErrUnexpectedEOF)},
+	210: {"errors.New(\"EOF\")", errors.New("EOF")},
+}
+
+func errCodeOf(err error) (int, bool) {
+	for c, v := range errValues {
+		if err == v.err {
+			return c, true
+		}
+	}
+	return 0, false
+}
+
+// recReader records what a real reader (gzip over a truncated stream) returned, call by call, as a script.
+type recReader struct {
+	r   io.Reader
+	rec []Chunk
+}
+
+func (x *recReader) Read(p []byte) (int, error) {
+	n, err := x.r.Read(p)
+	c := Chunk{d: append([]byte{}, p[:n]...)}
+	switch {
+	case err == io.EOF:
+		c.St = stEOF
+	case err != nil:
+		c.St = stFail
+		c.E = 99
+		if code, ok := errCodeOf(err); ok {
+			c.E = code
+		}
+	}
+	x.rec = append(x.rec, c)
+	return n, err
 }
 
 func (s *scriptReader) Read(p []byte) (int, error) {
@@ -407,6 +472,9 @@ type Obs struct {
 }
 
 func errObs(err error) Obs {
+	if code, ok := errCodeOf(err); ok {
+		return Obs{T: "errin", E: code} // the very value the input returned
+	}
 	var ie *injErr
 	if errors.As(err, &ie) {
 		return Obs{T: "errin", E: ie.code}
@@ -922,6 +990,27 @@ func (g *gen) runFsOps(stream string, ops []Op, strays bool) {
 		var ob Obs
 		switch op.Op {
 		case "create":
+			if op.Shape == "gzipcut" {
+				// a real gzip.Reader over a compressed stream that ends K bytes early
+				var zb bytes.Buffer
+				zw := gzip.NewWriter(&zb)
+				zw.Write(op.d)
+				zw.Close()
+				cut := zb.Bytes()[:zb.Len()-op.K]
+				gz, err := gzip.NewReader(bytes.NewReader(cut))
+				if err != nil {
+					ob = Obs{T: "other", Msg: "gzip header: " + err.Error()}
+					break
+				}
+				rr := &recReader{r: gz}
+				ob = createObs(e.o, rr)
+				op.Script = rr.rec
+				op.B = segsOf(op.d)
+				if d, st, _ := delivered(op.Script); st == stEOF {
+					tab.add(d)
+				}
+				break
+			}
 			if op.Shape != "" {
 				in := mkShaped(op.Shape, op.d, op.K)
 				ob = createObs(e.o, in.r)
@@ -1304,6 +1393,59 @@ func (g *gen) fsFaults(maxLen int) {
 				{Op: "open", Key: shaHex(d)},
 			}
 			g.runFsOps("fs-fault", ops, false)
+		}
+	}
+}
+
+// the input fails with each well-known error VALUE, at every offset incl. 0, with and without data in
+// the failing call; then the same content succeeds
+func (g *gen) fsErrValues() {
+	r := g.r
+	codes := []int{}
+	for c := range errValues {
+		codes = append(codes, c)
+	}
+	sort.Ints(codes)
+	for _, code := range codes {
+		for _, L := range []int{0, 1, 5} {
+			d := newStream(r, L)
+			k := shaHex(d)
+			for off := 0; off <= L; off++ {
+				for _, with := range []bool{false, true} {
+					if with && off == 0 {
+						continue
+					}
+					ops := []Op{
+						{Op: "create", plan: failPlan(r, d, off, with, (off+code)%2, code)},
+						{Op: "has", Key: k}, {Op: "open", Key: k}, {Op: "has", Key: shaHex(d[:off])},
+						{Op: "create", plan: splitPlan(r, d, 1, off%2)},
+						{Op: "open", Key: k},
+					}
+					g.runFsOps("fs-errval", ops, false)
+				}
+			}
+		}
+		// larger content, failing inside and exactly at a 32 KiB boundary
+		d := newStream(r, 40000)
+		for _, off := range []int{32768, 39999} {
+			g.runFsOps("fs-errval", []Op{{Op: "create", plan: failPlan(r, d, off, off%2 == 1, 0, code)},
+				{Op: "has", Key: shaHex(d[:off])}, {Op: "has", Key: shaHex(d)}}, false)
+		}
+		// the memory and the mapped store
+		d = newStream(r, 4)
+		for off := 0; off <= 4; off += 2 {
+			g.runMemOps("mem-errval", "mem", []Op{
+				{Op: "create", plan: failPlan(r, d, off, off > 0, 1, code)}, {Op: "pcreate", plan: failPlan(r, d, off, false, 1, code)},
+				{Op: "has", Key: shaHex(d[:off])}, {Op: "phas", Key: shaHex(d)},
+				{Op: "pcreate", plan: splitPlan(r, d, 1, 0)}, {Op: "open", Key: shaHex(d)}})
+		}
+	}
+	// a real truncated gzip stream (its reader returns io.ErrUnexpectedEOF), and the complete one
+	for _, L := range []int{10, 5000} {
+		d := newStream(r, L)
+		for _, cut := range []int{1, 4, 8, 9, 12, 0} {
+			g.runFsOps("fs-errval", []Op{{Op: "create", Shape: "gzipcut", K: cut, d: d},
+				{Op: "has", Key: shaHex(d)}, {Op: "create", plan: splitPlan(r, d, 2, 0)}, {Op: "open", Key: shaHex(d)}}, false)
 		}
 	}
 }
@@ -2747,6 +2889,7 @@ func main() {
 	}
 	if on("fsfault") {
 		g.fsFaults(12 * *deep)
+		g.fsErrValues()
 	}
 	if on("fsos") {
 		g.fsOsFaults(4 + *n/20)
